@@ -258,3 +258,57 @@ def url_source(m, meta):
         srv.shutdown()
         srv.server_close()
     return {"reproduced": bool(problems), "input": "URL-sourced images against a local HTTP server", "observed": [repr(p)[:300] for p in problems[:3]]}
+
+
+def frame_image(m, meta):
+    """ImageIterator over a file-sourced animation whose frames need no conversion or resizing (RGB frames at the original size, so
+    that _get_render_data hands back the very image the iterator keeps open): every frame of every pass is yielded and equals
+    format() of that frame; the image file is closed afterwards.  All three styles, cached and not."""
+    import os, tempfile, shutil, warnings
+    import tests  # noqa: F401
+    import term_image.geometry as G
+    from PIL import Image
+    from term_image.image import BlockImage, KittyImage, ITerm2Image, ImageIterator, Size
+    warnings.simplefilter("ignore")
+    KittyImage._supported = ITerm2Image._supported = True
+    problems = []
+    tmp = tempfile.mkdtemp()
+    try:
+        nfr, W, H = 4, 12, 8
+        path = os.path.join(tmp, "opaque.gif")
+        frames = []
+        for i in range(nfr):
+            f = Image.new("RGB", (W, H))
+            f.putdata([((x * 20 + i * 50) % 256, (y * 30 + i * 10) % 256, i * 60) for y in range(H) for x in range(W)])
+            frames.append(f)
+        frames[0].save(path, save_all=True, append_images=frames[1:], duration=100, loop=0)
+        nfd = lambda: len(os.listdir("/proc/self/fd"))
+        base = nfd()
+        for cls, cell in ((BlockImage, None), (KittyImage, G.Size(1, 2)), (ITerm2Image, G.Size(1, 2))):
+            if cell is not None:
+                tests.set_cell_size(cell)        # one pixel per cell column, two per line: ORIGINAL size = pixel size, no resampling
+            for spec in ("", "#"):
+                for cached in (False, True):
+                    image = cls.from_file(path)
+                    image.size = Size.ORIGINAL
+                    expected = []
+                    for n in range(nfr):
+                        image.seek(n)
+                        expected.append(format(image, spec))
+                    image.seek(0)
+                    got = []
+                    try:
+                        for fr in ImageIterator(image, 2, spec, cached):
+                            got.append(fr)
+                    except Exception as e:  # noqa: BLE001
+                        problems.append(f"{cls.__name__} spec={spec!r} cached={cached}: iteration stopped after {len(got)} of {2 * nfr} frames with {type(e).__name__}: {e}")
+                        continue
+                    if got != expected * 2:
+                        problems.append(f"{cls.__name__} spec={spec!r} cached={cached}: {len(got)} frames, {sum(a != b for a, b in zip(got, expected * 2))} differ from format()")
+                    image.close()
+                    if nfd() != base:
+                        problems.append(f"{cls.__name__} spec={spec!r} cached={cached}: {nfd() - base} descriptor(s) left open")
+                        base = nfd()
+    finally:
+        shutil.rmtree(tmp, ignore_errors=True)
+    return {"reproduced": bool(problems), "input": "4-frame opaque RGB GIF from a file, size ORIGINAL, 2 passes, all styles", "observed": problems[:3]}
